@@ -186,7 +186,16 @@ func RunWorker(a WorkerArgs) int {
 			break
 		}
 		seed := runSeed(a.Seed, w.Name, idx)
-		res, finished := RunOneGuarded(w, sim.NewGenTape(seed), a.Prop, a.Tier, false)
+		traceThis := os.Getenv("VERIF_TRACE_RUN") == strconv.Itoa(idx)
+		res, finished := RunOneGuarded(w, sim.NewGenTape(seed), a.Prop, a.Tier, traceThis)
+		if traceThis && finished {
+			for _, e := range res.Sched {
+				fmt.Fprintf(os.Stderr, "sched %+v\n", e)
+			}
+			for _, l := range res.Log {
+				fmt.Fprintln(os.Stderr, "log  ", l)
+			}
+		}
 		if !finished {
 			// a call into the library never came back: report it and stop this worker (the stuck
 			// goroutine cannot be killed)
